@@ -1,5 +1,8 @@
 //! E3: loopback peers around the real Listener and the real gRPC / HTTP / Agones adapters.
 mod net;
+mod world;
+mod hosted;
+mod app;
 mod c01;
 mod c02;
 mod c08;
@@ -15,6 +18,10 @@ mod c18;
 mod c19;
 mod c20;
 
+/// C04's allocation oracle (vsim's sweep, hosted here) needs the counting allocator to be the global one
+#[global_allocator]
+static GLOBAL: vsim::alloc::Counting = vsim::alloc::Counting;
+
 fn main() {
     let args: Vec<String> = std::env::args().collect();
     if args.get(1).map(String::as_str) == Some("C14-child") {
@@ -25,11 +32,38 @@ fn main() {
         c14::child_read();
         return;
     }
+    if args.get(1).map(String::as_str) == Some("WORLD-probe") {
+        net::raise_fd_limit();
+        let t = std::time::Instant::now();
+        let bound: usize = args.get(2).and_then(|b| b.parse().ok()).unwrap_or(3);
+        let diffs = std::sync::atomic::AtomicU64::new(0);
+        let (jobs, runs) = world::explore_pairs(bound, &world::world_cfgs(), &|s| {
+            for k in 0..2 {
+                let (x, y) = (world::full_view(&s.alone[k].recs[0]), world::full_view(&s.out.recs[k]));
+                if x != y || s.out.panics > 0 || !s.out.listener_returned {
+                    if diffs.fetch_add(1, std::sync::atomic::Ordering::Relaxed) < 12 {
+                        println!("DIFF client {k}: {}\n  alone: {x}\n  here:  {y}\n  panics {} returned {}", s.describe(), s.out.panics, s.out.listener_returned);
+                    }
+                }
+            }
+        });
+        println!("pairs: jobs {jobs} runs {runs} diffs {} in {:?}", diffs.load(std::sync::atomic::Ordering::Relaxed), t.elapsed());
+        let t = std::time::Instant::now();
+        let runs = world::explore_stops(&|s| {
+            let (x, y) = (world::full_view(&s.alone[0].recs[0]), world::full_view(&s.out.recs[0]));
+            if x != y || s.out.panics > 0 || !s.out.listener_returned {
+                println!("STOP-DIFF: {}\n  alone: {x}\n  here:  {y}\n  panics {} returned {}", s.describe(), s.out.panics, s.out.listener_returned);
+            }
+        });
+        println!("stops: runs {runs} in {:?}", t.elapsed());
+        return;
+    }
     let cli = common::cli();
     net::raise_fd_limit();
     match cli.id.as_str() {
         "C01" => c01::run(cli),
         "C02" => c02::run(cli),
+        "C03" | "C04" | "C05" | "C06" | "C07" | "C10" => hosted::run(cli),
         "C08" => c08::run(cli),
         "C09" => c09::run(cli),
         "C11" => c11::run(cli),
